@@ -133,7 +133,7 @@ def run(ctx: Ctx) -> None:
     ctx.correspond('render_expression', IMPORTS, 'list (tok str) * list (tok str)', 'fun c => match render (fst c) with Some r => toks_eqb r (snd c) | None => false end', cases, raw, prelude, shard=100)
 
     # ---- (b) programs ----
-    N = ctx.n(14, 600) * scale
+    N = ctx.n(14, 300) * scale
     for i in range(N):
         p = progen.gen_program(rnd, rnd.randint(1, 3), dict(ext=True))
         ext_used = any(k.startswith('ext_') for k in p.constructs)
